@@ -2265,16 +2265,30 @@ def std(*a, **k):
     raise ShimUnsupported("std")
 
 
+def _arg_extreme(a, op):
+    a = asarray(a)
+    if a.ndim != 1 or a.size == 0:
+        raise ShimUnsupported("arg%s on nd/empty" % op)
+    cells = a._cells()
+    best = len(cells) - 1
+    for i in range(len(cells) - 2, -1, -1):
+        # i is the answer if nothing beats it and nothing before it ties (first extreme wins)
+        cond = _and(*[_not(_cmp("gt" if op == "max" else "lt", cells[j], cells[i], a.dtype)) for j in range(len(cells)) if j != i],
+                    *[_cmp("gt" if op == "max" else "lt", cells[i], cells[j], a.dtype) for j in range(i)])
+        best = _ite(cond, i, best)
+    return int64(best, _dt=_I64)
+
+
 def argmax(a, axis=None):
     if _has_af(a):
         return _dispatch(argmax, (a,), {} if axis is None else {"axis": axis})
-    raise ShimUnsupported("argmax")
+    return _arg_extreme(a, "max")
 
 
 def argmin(a, axis=None):
     if _has_af(a):
         return _dispatch(argmin, (a,), {} if axis is None else {"axis": axis})
-    raise ShimUnsupported("argmin")
+    return _arg_extreme(a, "min")
 
 
 def prod(a, axis=None):
